@@ -84,7 +84,6 @@ func c18Content(c *core.Case) *core.Result {
 			if !w.idle() {
 				return c.Inconclusive("idle")
 			}
-			pubs := w.b.MQ.Pubs()[pubsBefore:]
 			want := map[string]uint64{} // key -> new end, for keys that stored >= 1 op
 			duids := map[string]string{}
 			for _, dd := range w.b.Datatypes() {
@@ -94,6 +93,12 @@ func c18Content(c *core.Case) *core.Result {
 					duids[dd.Key] = dd.DUID
 				}
 			}
+			if !w.b.AwaitPubs(pubsBefore+len(want), 3*time.Second) { // an announcement that is due may come from a goroutine the hooks do not see
+				c.Count("announcements_not_seen_within_3s", 1)
+			} else if len(want) > 0 {
+				w.idle()
+			}
+			pubs := w.b.MQ.Pubs()[pubsBefore:]
 			if len(want) > 0 {
 				stored++
 			} else {
